@@ -160,6 +160,17 @@ CLAIMS: dict[str, dict[str, str]] = {
         "note": NOTE + " rustc --emit=mir is trusted to reflect the compiled helpers.",
         "technique": "table recurrences, AST/MIR canonical decision tables and normal forms, finite-enum tabulation",
     },
+    "C16": {
+        "text": "Static shape checking: next/previous loop shape (unconditional first step, direction pairing, both "
+                "validation bounds, keep_time start), the 18 first/last/nth helper bodies of DateTime and Date reduced "
+                "to one reference shape per unit after the legitimate class deltas (sibling agreement + reference), "
+                "monthcalendar row/column pairing, quarter/year bounds, dispatch lists and exhaustiveness, the "
+                "PendulumException condition. Differences in constants, operators, receivers or called methods are "
+                "violations; pure restructurings are reported as UNVERIFIED. Landing on the right date for all month "
+                "shapes is value-level and not claimed.",
+        "note": NOTE,
+        "technique": "reference-shape matching with alpha-renaming and feature-multiset triage, clone agreement",
+    },
 }
 
 NOT_APPLICABLE: dict[str, str] = {}
